@@ -341,6 +341,30 @@ func stripConv2(v ssa.Value) ssa.Value {
 // a nil leaf arrives on an edge on which the error phi of the same block is known non-nil while the
 // return is restricted to that error phi == nil.
 func (c *Ctx) neverNilResult(r *ssa.Return) bool {
+	if c.neverNilResultLocal(r) {
+		return true
+	}
+	// path-sensitive: on every feasible path to this return the returned value resolves to a
+	// non-nil interface (results of an inlined multi-return helper are phis correlated with its error)
+	fn := r.Parent()
+	ok, n := true, 0
+	walkThreaded(pstate{b: fn.Blocks[0]}, func(st pstate) bool {
+		if st.b != r.Block() {
+			return true
+		}
+		n++
+		v := st.resolve(r.Results[0])
+		if !provablyNonNil(v, 2) {
+			if t, known := st.fact(v); !(known && t) {
+				ok = false
+			}
+		}
+		return ok
+	}, nil)
+	return ok && n > 0
+}
+
+func (c *Ctx) neverNilResultLocal(r *ssa.Return) bool {
 	v := stripConv2(r.Results[0])
 	if _, ok := v.(*ssa.MakeInterface); ok {
 		return true
@@ -740,46 +764,66 @@ func (c *Ctx) checkPromConfig(rule string) {
 			}
 			return
 		}
-		var cb *ssa.Function
-		switch v := st.Val.(type) {
-		case *ssa.MakeClosure:
-			cb, _ = v.Fn.(*ssa.Function)
-		case *ssa.Function:
-			cb = v
+		// the stored callback may be selected earlier and arrive through phis (a selection helper
+		// that was inlined): each leaf is classified where it is committed
+		type leaf struct {
+			v  ssa.Value
+			at *ssa.BasicBlock
 		}
-		if cb == nil {
-			return
+		var leaves []leaf
+		var collect func(v ssa.Value, at *ssa.BasicBlock, depth int)
+		collect = func(v ssa.Value, at *ssa.BasicBlock, depth int) {
+			if phi, isPhi := stripConv(v).(*ssa.Phi); isPhi && depth > 0 {
+				for i, e := range phi.Edges {
+					collect(e, phi.Block().Preds[i], depth-1)
+				}
+				return
+			}
+			leaves = append(leaves, leaf{stripConv(v), at})
 		}
-		// which case selects it: a dominating `c.OnError == "lit"` true edge, else default
-		lit := ""
-		found := false
-		for _, b := range fn.Blocks {
-			iff, isIf := condOf(b)
-			if !isIf {
+		collect(st.Val, st.Block(), 4)
+		for _, lf := range leaves {
+			var cb *ssa.Function
+			switch v := lf.v.(type) {
+			case *ssa.MakeClosure:
+				cb, _ = v.Fn.(*ssa.Function)
+			case *ssa.Function:
+				cb = v
+			}
+			if cb == nil {
 				continue
 			}
-			op, x, y, isCmp := cmpOf(iff.Cond)
-			if !isCmp || op != token.EQL {
-				continue
-			}
-			s, isS := constString(y)
-			xf, _ := loadedField(stripConv(x))
-			if !isS || xf != fOnError {
-				if s2, isS2 := constString(x); isS2 {
-					if yf, _ := loadedField(stripConv(y)); yf == fOnError {
-						s, isS, xf = s2, true, fOnError
+			// which case selects it: a dominating `c.OnError == "lit"` true edge, else default
+			lit := ""
+			found := false
+			for _, b := range fn.Blocks {
+				iff, isIf := condOf(b)
+				if !isIf {
+					continue
+				}
+				op, x, y, isCmp := cmpOf(iff.Cond)
+				if !isCmp || op != token.EQL {
+					continue
+				}
+				s, isS := constString(y)
+				xf, _ := loadedField(stripConv(x))
+				if !isS || xf != fOnError {
+					if s2, isS2 := constString(x); isS2 {
+						if yf, _ := loadedField(stripConv(y)); yf == fOnError {
+							s, isS, xf = s2, true, fOnError
+						}
 					}
 				}
+				if isS && xf == fOnError && edgeDominates(b, 0, lf.at) {
+					lit, found = s, true
+				}
 			}
-			if isS && xf == fOnError && edgeDominates(b, 0, st.Block()) {
-				lit, found = s, true
+			if found {
+				table[lit] = panics(cb)
+			} else {
+				haveDefault = true
+				defaultPanics = panics(cb)
 			}
-		}
-		if found {
-			table[lit] = panics(cb)
-		} else {
-			haveDefault = true
-			defaultPanics = panics(cb)
 		}
 	})
 	okAll := true
